@@ -368,3 +368,64 @@ def type_to_json(T):
 
 def type_from_json(j):
     return tuple(type_from_json(x) if isinstance(x, list) else x for x in j)
+
+
+def long_option_values(ns=(9, 17)):
+    """Option-type int arrays long enough for multi-byte bit masks: for each length n, every single-None and every
+    single-valid pattern, the two alternating patterns, all valid and all None (labels = positions)."""
+    out = []
+    for n in ns:
+        pats = []
+        for i in range(n):
+            pats.append([j != i for j in range(n)])
+            pats.append([j == i for j in range(n)])
+        pats.append([j % 2 == 0 for j in range(n)])
+        pats.append([j % 2 == 1 for j in range(n)])
+        pats.append([True] * n)
+        pats.append([False] * n)
+        for p in pats:
+            out.append([j if ok else None for j, ok in enumerate(p)])
+    return out
+
+
+def long_option_list_values():
+    """var * ?int arrays whose option node spans more than one mask byte, with rows of unequal length."""
+    out = []
+    for rows in ((3, 0, 7), (9, 1), (1, 8, 2)):
+        n = sum(rows)
+        for pat in ([j % 3 != 1 for j in range(n)], [j not in (7, 8) for j in range(n)], [j in (7, 8, 9) for j in range(n)]):
+            flat = [j if ok else None for j, ok in enumerate(pat)]
+            arr, k = [], 0
+            for r in rows:
+                arr.append(flat[k:k + r])
+                k += r
+            out.append(arr)
+    return out
+
+
+def long_sort_values(sizes=(17, 24, 33)):
+    """(leaf kind, array) pairs with one list long enough to leave the small-input paths of the sorting routines
+    (insertion-sort thresholds at 16, median-of-three pivots): NaN at structured positions, ties, monotone runs."""
+    import math
+    out = []
+    for n in sizes:
+        base = [float((i * 7) % n) for i in range(n)]
+        pats = [
+            [math.nan] * n,
+            [math.nan if i % 2 == 0 else base[i] for i in range(n)],
+            [math.nan if i % 3 == 0 else base[i] for i in range(n)],
+            [math.nan if i < n // 2 else base[i] for i in range(n)],
+            [math.nan if i >= n // 2 else base[i] for i in range(n)],
+            [math.nan if i in (0, n // 2, n - 1) else base[i] for i in range(n)],
+            [math.nan if i % 5 != 4 else float(n - i) for i in range(n)],
+            [float(n - i) for i in range(n)],
+            [float(i // 3) for i in range(n)],
+            [math.inf if i % 4 == 0 else (-math.inf if i % 4 == 1 else (math.nan if i % 4 == 2 else 0.5)) for i in range(n)],
+        ]
+        for p in pats:
+            out.append(("float", [[2.5, math.nan], p, []]))
+        ipats = [[n - i for i in range(n)], [i for i in range(n)], [3] * n, [(i * 5) % 7 - 3 for i in range(n)],
+                 [(-1) ** i * i for i in range(n)]]
+        for p in ipats:
+            out.append(("int", [[1, 0], p, []]))
+    return out
